@@ -78,11 +78,18 @@ def is_container_frame(module: str, qualname: str) -> bool:
     return False
 
 
+def _type_name(e):
+    t = type(e)
+    if t.__module__ in ("builtins", "numbers_parser.exceptions"):
+        return t.__name__
+    return f"{t.__module__}.{t.__name__}"
+
+
 def classify(exc: BaseException):
     """-> (kind, exc_type, cause_type, frame) with kind in lib | escape | later."""
-    et = type(exc).__name__
+    et = _type_name(exc)
     cause = exc.__cause__
-    ct = type(cause).__name__ if cause is not None else ""
+    ct = _type_name(cause) if cause is not None else ""
     inner = ""
     last = ""
     for fr, lineno in traceback.walk_tb(exc.__traceback__):
@@ -368,12 +375,16 @@ def materialise(base: Base, container=None, extra_override=None):
 PATH_KINDS = ["missing", "missing-dir-suffix", "wrong-suffix-file", "wrong-suffix-folder", "empty-file", "one-byte-file",
               "text-file", "jpeg-file", "foreign-zip", "zip-metadata-only", "folder-empty", "folder-metadata-only",
               "folder-empty-index-zip", "folder-index-zip-is-folder", "folder-plist-is-folder", "dangling-symlink",
-              "symlink-dev-null", "nul-in-path", "zip-of-zip"]
+              "symlink-dev-null", "nul-in-path", "zip-of-zip", "symlink-loop", "not-a-directory-component", "name-too-long", "folder-symlink-cycle", "folder-dangling-symlink-member", "parent-not-searchable", "file-not-readable"]
+# evaluated without privileges (a forked child running as 'nobody' when the check runs as root)
+UNPRIVILEGED_KINDS = ("parent-not-searchable", "file-not-readable")
 
 
 def build_path_case(kind):
     """-> path (created under the scratch directory)"""
     d = os.path.join(scratch_dir(), "c17-path")
+    if os.path.isdir(os.path.join(d, "private")):
+        os.chmod(os.path.join(d, "private"), 0o700)
     shutil.rmtree(d, ignore_errors=True)
     os.makedirs(d)
     tm = get_base("tmpl")
@@ -410,7 +421,8 @@ def build_path_case(kind):
         for n, b in plists:
             os.makedirs(os.path.dirname(os.path.join(p, n)), exist_ok=True)
             open(os.path.join(p, n), "wb").write(b)
-    elif kind in ("folder-empty-index-zip", "folder-index-zip-is-folder", "folder-plist-is-folder"):
+    elif kind in ("folder-empty-index-zip", "folder-index-zip-is-folder", "folder-plist-is-folder", "folder-symlink-cycle",
+                  "folder-dangling-symlink-member"):
         for rel, b in pk.extra.items():
             os.makedirs(os.path.dirname(os.path.join(p, rel)), exist_ok=True)
             open(os.path.join(p, rel), "wb").write(b)
@@ -418,6 +430,12 @@ def build_path_case(kind):
             open(os.path.join(p, "Index.zip"), "wb").close()
         elif kind == "folder-index-zip-is-folder":
             os.makedirs(os.path.join(p, "Index.zip"))
+        elif kind == "folder-symlink-cycle":
+            open(os.path.join(p, "Index.zip"), "wb").write(pk.container)
+            os.symlink("..", os.path.join(p, "Metadata", "up"))
+        elif kind == "folder-dangling-symlink-member":
+            open(os.path.join(p, "Index.zip"), "wb").write(pk.container)
+            os.symlink(os.path.join(d, "nowhere"), os.path.join(p, "preview-extra.jpg"))
         else:
             open(os.path.join(p, "Index.zip"), "wb").write(pk.container)
             os.unlink(os.path.join(p, "Metadata", "Properties.plist"))
@@ -428,6 +446,21 @@ def build_path_case(kind):
         os.symlink("/dev/null", p)
     elif kind == "nul-in-path":
         return os.path.join(d, "x\0y.numbers")
+    elif kind == "symlink-loop":
+        os.symlink(p, p)
+    elif kind == "not-a-directory-component":
+        open(p, "wb").write(tm.container)
+        return os.path.join(p, "y.numbers")
+    elif kind == "parent-not-searchable":
+        os.makedirs(os.path.join(d, "private"))
+        p = os.path.join(d, "private", "x.numbers")
+        open(p, "wb").write(tm.container)
+        os.chmod(os.path.join(d, "private"), 0o000 if os.geteuid() else 0o700)
+    elif kind == "file-not-readable":
+        open(p, "wb").write(tm.container)
+        os.chmod(p, 0o000 if os.geteuid() else 0o600)
+    elif kind == "name-too-long":  # one component longer than NAME_MAX
+        return os.path.join(d, "x" * 300 + ".numbers")
     else:
         raise KeyError(kind)
     return p
@@ -435,6 +468,47 @@ def build_path_case(kind):
 
 # ---------------------------------------------------------------------------------------------
 # one case
+
+
+def unprivileged(fn):
+    """Run fn() -> JSON-able result without root privileges. As root: in a forked child that
+    switched to 'nobody', with the scratch directories made searchable for the duration."""
+    if os.geteuid() != 0:
+        return fn()
+    import json
+
+    opened = []
+    for q in dict.fromkeys([os.environ.get("VERIF_SCRATCH_RUN"), scratch_dir(), os.path.join(scratch_dir(), "c17-path")]):
+        if q and os.path.isdir(q):
+            opened.append((q, os.stat(q).st_mode & 0o7777))
+            os.chmod(q, opened[-1][1] | 0o011)
+    r, w = os.pipe()
+    pid = os.fork()
+    if pid == 0:
+        code = 1
+        try:
+            os.close(r)
+            os.setgroups([])
+            os.setgid(65534)
+            os.setuid(65534)
+            os.write(w, json.dumps(fn()).encode())
+            code = 0
+        finally:
+            os._exit(code)
+    os.close(w)
+    data = b""
+    while True:
+        chunk = os.read(r, 65536)
+        if not chunk:
+            break
+        data += chunk
+    os.close(r)
+    os.waitpid(pid, 0)
+    for q, mode in opened:
+        os.chmod(q, mode)
+    if not data:
+        raise RuntimeError("unprivileged child produced no result")
+    return json.loads(data)
 
 
 def fault_class(case):
@@ -498,6 +572,10 @@ def build_container(case):
             return base, base.container, {name: None}
         return base, base.rewritten(delete={name}), None
     if k == "iwph":
+        if case[2].startswith("replace:"):
+            nm = case[2][len("replace:"):]
+            mem = [(".iwph" if n == nm else n, b) for n, b in base.members]
+            return base, faults.zip_bytes(mem, base.ctypes), None
         return base, base.rewritten(add=[(case[2], ".iwph", b"\x00" * 16)]), None
     raise KeyError(k)
 
@@ -533,13 +611,18 @@ def eval_case(case, with_cli=False):
             return {"result": {"outcome": "n/a", "sig": "n/a"}, "fails": []}
         path, cleanup = materialise(base, container, override)
     try:
-        res = call_open(path)
+        if case[0] == "path" and case[1] in UNPRIVILEGED_KINDS:
+            both = unprivileged(lambda: [call_open(path), call_cli(path) if with_cli else None])
+            res = both[0]
+        else:
+            both = None
+            res = call_open(path)
         if res["outcome"] == "escape":
             fails.append(({"mechanism": res["frame"], "class": cls, "pattern": res["exc"], "stage": "open"},
                           f"Document(<{case}>) raised {res['exc']}: {res['msg']} (innermost container frame {res['frame']})"))
         out = {"result": res, "fails": fails}
         if with_cli:
-            c = call_cli(path)
+            c = both[1] if both else call_cli(path)
             out["cli"] = c
             if c["outcome"] == "escape" and res["outcome"] != "escape":  # otherwise the same defect, already recorded
                 fails.append(({"mechanism": c["frame"], "class": cls, "pattern": c["exc"], "stage": "cli"},
@@ -547,13 +630,13 @@ def eval_case(case, with_cli=False):
             elif c["outcome"] == "bad-exit":
                 fails.append(({"mechanism": "cat-numbers", "class": cls, "pattern": f"exit={c['code']}", "stage": "cli"},
                               f"cat-numbers <{case}> exit code {c['code']}, stderr {c['stderr']!r} (expected exit 1 and a one-line message)"))
-            elif c["outcome"] in ("exit", "printed") and (c["outcome"] == "exit") != (res["outcome"] == "lib"):
-                if res["outcome"] in ("lib", "doc"):
-                    fails.append(({"mechanism": "cat-numbers", "class": cls, "pattern": "disagrees-with-Document", "stage": "cli"},
-                                  f"cat-numbers <{case}> -> {c['sig']} but Document() -> {res['sig']}"))
     finally:
         if cleanup:
             cleanup()
+        if case[0] == "path":
+            priv = os.path.join(scratch_dir(), "c17-path", "private")
+            if os.path.isdir(priv):
+                os.chmod(priv, 0o700)
     return out
 
 
@@ -720,6 +803,7 @@ def _gen_cases(family, bname, member, tier, seed):
                ["all", bname, "unknown-type", 0], ["delete", bname, "*iwa"],
                ["iwph", bname, "first"], ["iwph", bname, "last"]]
         out += [["delete", bname, nm] for nm in base.all_member_names()]
+        out += [["iwph", bname, "replace:" + nm] for nm, _b in base.members]  # the member itself becomes the marker
         return out
     raise KeyError(family)
 
